@@ -20,8 +20,21 @@ NONTRIVIAL_TAGS = ("arr+hash", "grow-hash", "grow-array", "trav-update")
 def strip_op(line):
     """protocol line -> replay script line (no hashes, no outputs, values as `v`/`n`)"""
     f = line.split(" ")
+
+    def val(tok):
+        # integers are interchangeable fresh values; nil, false, "", 0.0, NaN … are kept as they are
+        return "v" if tok.startswith("i") else tok
+
     if f[0] in ("S", "R", "X"):
-        return "%s %s %s" % (f[0], f[1], "n" if f[3] == "n" else "v")
+        return "%s %s %s" % (f[0], f[1], val(f[3]))
+    if f[0] == "TI":
+        return "TI %s" % val(f[1])
+    if f[0] == "TP":
+        return "TP %s %s" % (f[1], val(f[2]))
+    if f[0] == "TQ":
+        return "TQ %s" % f[1]
+    if f[0] in ("TR", "TU"):
+        return f[0]
     if f[0] in ("G", "N", "I"):
         return "%s %s" % (f[0], f[1])
     if f[0] == "L":
@@ -77,8 +90,13 @@ def report_hang(ctx, lines, label):
     return lines[:idx]
 
 
+SHRINK = {"spent": 0.0, "off": False}  # shrinking is best effort: at most ~60 s per run, none after a hang
+
+
 def run_script(h, script_lines, ctx=None, timeout=120):
     lines, hung = run_bounded(h, ["replay"], input="\n".join(script_lines) + "\n", timeout=timeout)
+    if hung:
+        SHRINK["off"] = True
     if hung:
         if ctx is None:
             lines = lines[:max((i for i, l in enumerate(lines) if l.startswith("C ")), default=0)]
@@ -97,16 +115,19 @@ def fails_with(tag, body):
 
 def shrink(h, leg, ops, tag, budget=14):
     """delta debugging over the op list; all candidates of a round run in one harness + oracle call"""
+    import time
     n = 2
-    while len(ops) >= 2 and budget > 0:
+    while len(ops) >= 2 and budget > 0 and not SHRINK["off"] and SHRINK["spent"] < 60:
         budget -= 1
+        t0 = time.time()
         chunk = max(1, len(ops) // n)
         cands = [ops[:i] + ops[i + chunk:] for i in range(0, len(ops), chunk)]
         script = []
         for ci, c in enumerate(cands):
             script.append("C s%d %s shrink" % (ci, leg))
             script.extend(c)
-        lines, verdicts = run_script(h, script, timeout=60)
+        lines, verdicts = run_script(h, script, timeout=15)
+        SHRINK["spent"] += time.time() - t0
         cases = split_cases(lines, verdicts)
         hit = None
         for ci, (_, body) in enumerate(cases):
